@@ -483,6 +483,7 @@ func c12Reload(R *vr.Result, rng *rand.Rand, id string) {
 		return
 	}
 	iface := ag.GetInterface()
+	iface.Check() //nolint:errcheck  (a served request proves the dispatcher runs and has installed its SIGHUP handler)
 	for _, nd := range []uint{3, 2, 4} {
 		st.Def = nd
 		st.WriteCfg()
